@@ -424,6 +424,7 @@ pub fn c12(args: &[String]) -> i32 {
     quiet_panics();
     let (thorough, seed) = args2(args);
     let mut g = Gen::new(seed ^ 0xC12);
+    let mut g2 = Gen::new(seed ^ 0xC12_15);
     let mut st = Stats::new();
     let n = if thorough { 400000 } else { 30000 };
     let inv = crate::frag::INV;
@@ -518,6 +519,18 @@ pub fn c12(args: &[String]) -> i32 {
                 }
             }
         };
+        // condensed rules whose sub-rules are of DIFFERENT kinds (insertion `*`, deletion, substitution side by side): the kind of every
+        // sub-rule is decided from its own input and output.  Own generator, so that the draws of the streams above stay what they were.
+        let (short, long, what) = if case % 15 == 5 {
+            let k = 2 + g2.rng.below(2);
+            let star = g2.rng.below(k);
+            let ins: Vec<String> = (0..k).map(|i| if i == star || g2.rng.chance(1, 4) { "*".to_string() } else { inv[g2.rng.below(7)].to_string() }).collect();
+            let outs: Vec<String> = (0..k).map(|i| if ins[i] != "*" && g2.rng.chance(1, 4) { "*".to_string() } else { inv[g2.rng.below(7)].to_string() }).collect();
+            let env = ["_ #", "# _", "_ C", "V _", "C _ V", "_ $", "V _ #"][g2.rng.below(7)];
+            let s = format!("{} > {} / {env}", ins.join(", "), outs.join(", "));
+            let l: Vec<String> = (0..k).map(|i| format!("{} > {} / {env}", ins[i], outs[i])).collect();
+            (vec![s], l, "condensed-mixed")
+        } else { (short, long, what) };
         // the metathesis equivalence is stated for words without adjacent equal segments
         if what == "metathesis" && w.sylls.iter().any(|s| s.segs.windows(2).any(|p| p[0] == p[1])) { continue }
         let a = apply(&short, &w); let b = apply(&long, &w);
